@@ -8,3 +8,20 @@ type ClassNode struct {
 }
 
 var ClassInheritanceMap = make(map[ClassNode][]ClassNode)
+
+// walkGuard remembers the classes an inheritance walk has already entered, so
+// that cyclic declarations (class A < B ... class B < A) end the walk instead
+// of recursing forever.
+type walkGuard map[ClassNode]bool
+
+func (g walkGuard) enter(frame, class string) bool {
+	node := ClassNode{Frame: frame, Class: class}
+
+	if g[node] {
+		return false
+	}
+
+	g[node] = true
+
+	return true
+}
